@@ -138,13 +138,14 @@ fn multiset(xs: &[MVal]) -> BTreeMap<MVal, usize> {
 }
 
 pub fn array_distinct(v: &MVal) -> MVal {
-    let mut seen: Vec<MVal> = vec![];
+    let mut seen = std::collections::BTreeSet::new();
+    let mut out: Vec<MVal> = vec![];
     for x in list(v) {
-        if !seen.contains(&x) {
-            seen.push(x);
+        if seen.insert(x.clone()) {
+            out.push(x);
         }
     }
-    MVal::Arr(seen)
+    MVal::Arr(out)
 }
 
 pub fn array_intersection(a: &MVal, b: &MVal) -> MVal {
